@@ -183,6 +183,24 @@ def make_rod(rng, dim, n_elems=None, taper=None, centreline=None, length=None, r
     return rod, {"n_elems": n, "taper": taper, "centreline": centreline, "length": length, "r0": r0}
 
 
+def rebind_arrays(body):
+    """What PyElastica's ``simulator.finalize()`` does to every rod / rigid body: each array ATTRIBUTE is replaced by another array
+    object holding the same values (a view into the simulator's memory block).  SophT's documented order is body -> forcing grid /
+    interactor -> finalize() -> stepping, so a grid must read the body's arrays through the body at every evaluation; a reference
+    to an array taken at construction is orphaned here.  Returns the number of attributes rebound."""
+    n = 0
+    for name, val in list(vars(body).items()):
+        if isinstance(val, np.ndarray):
+            block = np.empty((2,) + val.shape, val.dtype)  # "memory block": the new array is a view, like after finalize()
+            block[1] = val
+            try:
+                setattr(body, name, block[1])
+                n += 1
+            except Exception:
+                pass
+    return n
+
+
 def stretch_rod(rod, rng, lo=0.7, hi=1.4):
     """change the rod's cross-sections AFTER a forcing grid may have been built on it: every element is stretched /
     compressed along its own tangent by a random factor in [lo, hi] (directions, hence directors, stay valid), then
